@@ -102,7 +102,7 @@ def present_syms(t):
     return []
 
 
-def r1_nothing_dropped(chk):
+def r1_nothing_dropped(chk, only_lhs=None):
     chk.unit(PARSER)
     chk.doc('C02.R1', 'per production alternative (three dialects): every value-carrying right-hand-side symbol is '
                       'used exactly once in the value, in source order (audited discards excepted); the set of '
@@ -128,6 +128,8 @@ def r1_nothing_dropped(chk):
             seen_alt.add(key)
             n_alt += 1
             if p.lhs in SILENT:
+                continue
+            if only_lhs is not None and p.lhs not in only_lhs:
                 continue
             term = gs.terms[p]
             used = present_syms(term)
@@ -155,7 +157,7 @@ def r1_nothing_dropped(chk):
                     chk.ob('C02.R1', tag + '/truthiness(%r)' % tv, False, '%s:%s' % (PARSER, p.fn.lineno),
                            'the action tests the truthiness of %r, which can be %s: that value is treated as absent'
                            % (tv, ' or '.join(lossy)))
-    chk.floor('C02.R1', 300, 'production alternatives')
+    chk.floor('C02.R1', 300 if only_lhs is None else 40, 'production alternatives')
     chk.note('%d distinct (function, alternative) pairs evaluated' % n_alt)
 
 
@@ -207,8 +209,19 @@ def r2_list_idiom(chk):
             else:
                 k = items[-1]
 
+                base_tagged = any(isinstance(gs.terms[q], Tup) or (isinstance(gs.terms[q], Cond) and
+                                                                   isinstance(gs.terms[q].a, Tup))
+                                  for q in gs.by_lhs[p.lhs] if not (q.rhs and q.rhs[0] == p.lhs))
+
+                def acc_ok(t):
+                    # the accumulated list: p1 itself for plain lists, p1[1] (the list inside the tag) for tagged ones
+                    if not list_part(t, 1):
+                        return False
+                    txt = repr(t)
+                    return ('p1[1]' in txt) == base_tagged or (not base_tagged and txt == 'p1')
+
                 def appended(t):
-                    return isinstance(t, Cat) and list_part(t.a, 1) and isinstance(t.b, Lst) and \
+                    return isinstance(t, Cat) and acc_ok(t.a) and isinstance(t.b, Lst) and \
                         len(t.b.items) == 1 and isinstance(t.b.items[0], Sym) and t.b.items[0].i == k
 
                 def tagged_appended(t):
@@ -248,6 +261,63 @@ def r2_list_idiom(chk):
                 chk.ob('C02.R2', '%s.%s[%s]/base' % (q.owner, q.fn.name, ' '.join(q.rhs)), good,
                        '%s:%s' % (PARSER, q.fn.lineno), 'base case of the list yields %s' % repr(t)[:100])
     chk.floor('C02.R2', 24, 'left-recursive list productions')
+
+
+def r2b_operand_shapes(chk, rule='C02.R2b'):
+    """`a + b` in a grammar action: both operands lists, or both strings - a tuple plus a list raises TypeError"""
+    chk.doc(rule, 'operands of + in grammar actions have compatible shapes (list + list, str + str): anything else '
+                  'raises TypeError while parsing, a foreign exception')
+    seen = set()
+    n = 0
+    for dname, gs in all_shapes(chk):
+        for p in gs.d.prods:
+            key = (p.owner, p.fn.name, p.rhs)
+            if key in seen:
+                continue
+            seen.add(key)
+
+            def walk(t):
+                if isinstance(t, Cat):
+                    yield t
+                    for x in (t.a, t.b):
+                        for y in walk(x):
+                            yield y
+                elif isinstance(t, (Tup, Lst)):
+                    for x in t.items:
+                        for y in walk(x):
+                            yield y
+                elif isinstance(t, Cond):
+                    for x in (t.a, t.b):
+                        for y in walk(x):
+                            yield y
+                elif isinstance(t, (Idx, Slc)):
+                    for y in walk(t.t):
+                        yield y
+            from vt.shapes import term_av, av_top
+            for c in walk(gs.terms[p]):
+                n += 1
+                sa = lambda i, p=p: gs.sym_av(p.rhs[i - 1]) if 0 < i <= len(p.rhs) else av_top()
+                a, b = term_av(c.a, sa), term_av(c.b, sa)
+
+                def kinds(v):
+                    k = set()
+                    if v.lst:
+                        k.add('list')
+                    if v.s:
+                        k.add('str')
+                    if v.tuples:
+                        k.add('tuple')
+                    if v.i:
+                        k.add('int')
+                    if v.dct:
+                        k.add('dict')
+                    return k
+                ka, kb = kinds(a), kinds(b)
+                bad = not a.top and not b.top and ka and kb and not (ka & kb and len(ka | kb) == 1)
+                # None operands are allowed only when guarded (Cond) - they show up as `none` with another kind
+                chk.ob(rule, '%s.%s[%s]/%r' % (p.owner, p.fn.name, ' '.join(p.rhs), c), not bad,
+                       '%s:%s' % (PARSER, p.fn.lineno), 'adds %s to %s: TypeError at parse time' % (sorted(ka), sorted(kb)))
+    chk.floor(rule, 30, 'concatenations in grammar actions')
 
 
 def handler_arity(fn):
@@ -469,5 +539,16 @@ def r7_history_independence(chk):
     r1_parser_reset(chk, rule='C02.R7')
 
 
-RULES = [r1_nothing_dropped, r2_list_idiom, r3_producer_consumer, r4_token_values, r5_layout, r6_entry_point,
-         r7_history_independence]
+def r8_number_tokens(chk):
+    """numbers including 64-bit values are tokens: the classifier's limits and branches (same rule as C05.R1)"""
+    from vt.runner import Check
+    from rules.C05 import r1_number_classifier
+    chk.doc('C02.R8', 't_NUMBER classifies by 2^32-1 / 2^64-1 into the four numeric token types (C05.R1)')
+    tmp = Check(chk.prop, chk.tier, chk.model, chk.repo)
+    r1_number_classifier(tmp)
+    for o in tmp.obligations:
+        chk.ob('C02.R8', o.key, o.ok, o.where, o.detail)
+
+
+RULES = [r1_nothing_dropped, r2_list_idiom, r2b_operand_shapes, r3_producer_consumer, r4_token_values, r5_layout, r6_entry_point,
+         r7_history_independence, r8_number_tokens]
